@@ -368,8 +368,24 @@ def gen_program(ch, cfg=None):
     """Returns (model block, tags)."""
     cfg = cfg or Cfg()
     g = _Gen(ch, cfg)
-    blk = g.block(cfg.max_depth, top=True, in_func=False)
+    # (a chunk is the body of a vararg function - Lua 5.2 3.3.2 -, so `...` may be used at its top level)
+    blk = g.block(cfg.max_depth, top=True, in_func=False, vararg='chunk_varargs' not in cfg.avoid)
+    if chunk_uses_varargs(blk):
+        g.tags.add('chunk_level_varargs')
     return blk, g.tags
+
+
+def chunk_uses_varargs(node):
+    """Does the block use `...` outside every function body (i.e. the chunk's own arguments)?"""
+    if isinstance(node, tuple):
+        if node == ('dots',):
+            return True
+        if node and node[0] in ('function', 'localfunction'):
+            return False
+        return any(chunk_uses_varargs(x) for x in node)
+    if isinstance(node, list):
+        return any(chunk_uses_varargs(x) for x in node)
+    return False
 
 
 # ---------------------------------------------------------------------------------------
